@@ -1719,8 +1719,14 @@ fn c04_run(case: &mut Case, rng: &mut Rng) {
         case.ctl("step");
         case.ctl("q h1 countof h2");
         case.ctl("step");
-        case.ctl("bounce h2");
-        case.ctl("bounce h0");
+        if case.idx % 2 == 0 {
+            case.ctl("bounce_set h0,h2");
+        } else {
+            case.ctl("bounce h2");
+            case.ctl("bounce h0");
+        }
+        case.ctl("isrunning h0");
+        case.ctl("isrunning h2");
         case.ctl("q h2 count");
         case.ctl("step");
     }
